@@ -275,7 +275,7 @@ class C03(Property):
                              (4, "hub_use"), (2, "next_it"), (2, "for"),
                              (1, "thub_scalar"), (1, "rewrap"),
                              (1, "thub_raw"), (2, "derive"),
-                             (1, "tee_raw")])
+                             (1, "tee_raw"), (1, "ctor2")])
       if odd and op == "filter":
         # items that are None / falsy / not numbers: only filter(None) and
         # filter(bool) make sense on them
@@ -960,6 +960,30 @@ class _Ctx(object):
     model.rebase(MapSeq(model_f, model.rest()))
     nh = self.add("stream", got[1], model, gen=h.gen + 1, family=h.family)
     self.events.append("%s of h%d -> h%d" % (nm, h.hid, nh.hid))
+
+  def op_ctor2(self, h, op):
+    # Stream(<list>, handle): the constructor's several-iterables route (a
+    # chain).  The chain reaches its second part lazily, so the new stream is
+    # peeked past the list at once: a hub's use is then spent here and now.
+    if h.kind == "hub" and h.uses <= 0:
+      return
+    lst = [910000 + self.nsteps * 10 + i for i in range(2)]
+    # the model answers first: when it cannot tell the third item within its
+    # fuel (a filter that never matches over an endless source) the whole
+    # operation is skipped - the real peek would search for ever
+    trial = HandleModel(AppendSeq(ListSeq(lst), h.model.clone().rest()))
+    want, _ = self.model_take(trial, len(lst) + 1, False)    # may starve
+    ok, model = self._source_of(h, "ctor2")
+    got = self.call("ctor2", lambda: self.p.Stream(list(lst), h.real))
+    if got[0] != "ok" or not isinstance(got[1], self.p.Stream):
+      raise _Mismatch("ctor2:return", "Stream(%r, h%d) gave %r"
+                      % (lst, h.hid, got))
+    model.rebase(AppendSeq(ListSeq(lst), model.rest()))
+    nh = self.add("stream", got[1], model, gen=h.gen + 1, family=h.family)
+    self.expect("ctor2-peek", self.call(
+      "ctor2-peek", lambda: got[1].peek(len(lst) + 1)), want,
+      "Stream(%r, h%d).peek(3)" % (lst, h.hid))
+    self.events.append("Stream(%r, h%d) -> h%d" % (lst, h.hid, nh.hid))
 
   def op_rewrap(self, h, op):
     # Stream(stream): a new Stream over the same data, the old one retired
